@@ -426,7 +426,9 @@ func c09r6(w *World, rr *RuleRun) {
 				return x.Op == OpBin && x.Name == "==" && ((x.Args[0].IsConst("0") && x.Args[1].Op == OpLen && termEq(x.Args[1].Args[0], wants)) || (x.Args[1].IsConst("0") && x.Args[0].Op == OpLen && termEq(x.Args[0].Args[0], wants)))
 			})
 			if noWant {
-				ok := alt.Has("n", !spec.to4Nil, func(x *Term) bool { return x.Op == OpCall && strings.HasSuffix(x.Name, ".To4") && len(x.Args) == 1 && termEq(x.Args[0], src) })
+				ok := alt.Has("n", !spec.to4Nil, func(x *Term) bool {
+					return x.Op == OpCall && strings.HasSuffix(x.Name, ".To4") && len(x.Args) == 1 && termEq(x.Args[0], src)
+				})
 				what := "is IPv4 (To4() ≠ nil)"
 				if spec.to4Nil {
 					what = "is not IPv4 (To4() = nil, so v4-mapped sources are IPv4)"
